@@ -107,3 +107,103 @@ def run(ctx):
         rdom(ctx, P + ':builder:validate-dominates-build', b, oks, [r'call:.*SecretKeyParamsBuilder::validate$'], 'SecretKeyParamsBuilder::build succeeds only after validate() (error propagated)')
     ctx.floor(P + ':builder:floor', 'SecretKeyParamsBuilder::build', len(cands), 1)
     sig.s15_5_version_alignment_sign(ctx, P)
+    certificate_assembly(ctx, P)
+    lock_after_backsig(ctx, P, sub)
+
+
+META = {'KeyFlags': 'keyflags', 'Features': 'features', 'PreferredSymmetricAlgorithms': 'preferred_symmetric_algorithms',
+        'PreferredHashAlgorithms': 'preferred_hash_algorithms', 'PreferredCompressionAlgorithms': 'preferred_compression_algorithms',
+        'PreferredAeadAlgorithms': 'preferred_aead_algorithms'}
+KSIGN = 'composed::key::shared::KeyDetails::sign'
+
+
+def certificate_assembly(ctx, P):
+    """How KeyDetails::sign assembles the self-signatures of a generated key: the requested flags / features / preferences are
+    carried by a self-signature for every key version, and the primary user id is marked primary on every path."""
+    main = ctx.body(KSIGN)
+    if main is None:
+        return
+    clos = {r['path']: ctx.wrap(r) for r in ctx.f.closures_of(KSIGN)}
+    # which closure builds the metadata subpackets, and from which KeyDetails fields
+    meta = None
+    for cp, cb in clos.items():
+        if cb.constructs(r'SubpacketData$', 'KeyFlags'):
+            meta = cp
+    ctx.check(P + ':cert:metadata-closure', 'R-table', 'KeyDetails::sign has one helper closure that builds the metadata subpackets', meta is not None, function=KSIGN)
+    if meta is None:
+        return
+    cb = clos[meta]
+    upv = None
+    for i, k, st in main.stmts(lambda s: s['r']['k'] == 'agg' and s['r'].get('ak') == 'closure' and s['r'].get('adt') == meta):
+        upv = [sorted(x[len('field:KeyDetails.'):] for x in main.operand_origins(o) if x.startswith('field:KeyDetails.')) for o in st['r']['o']]
+    table = {}
+    for i, k, st in cb.constructs(r'SubpacketData$'):
+        v = st['r']['v']
+        if v in META and st['r']['o']:
+            idx = [int(x[6:]) for x in cb.operand_origins(st['r']['o'][0]) if re.match(r'field:\d+$', x)]
+            table[v] = sorted(set(f for j in idx if upv and j < len(upv) for f in upv[j]))
+    bad = {v: table.get(v) for v, fld in META.items() if table.get(v) != [fld]}
+    ctx.check(P + ':cert:metadata-from-requested-fields', 'R-table',
+              'the metadata closure builds KeyFlags / Features / the four preference subpackets, each from the KeyDetails field of the same name (flags and preferences are those requested)',
+              not bad, function=meta, table=table, missing=bad or None)
+    basic = [cp for cp, c2 in clos.items() if cp != meta and c2.constructs(r'SubpacketData$', 'IssuerFingerprint') and not c2.calls(r'SignatureConfig::sign_')]
+    dom = main.dominators()
+    # v6: a direct-key signature with the metadata
+    sk = call_blocks(main, r'SignatureConfig::sign_key$')
+    mcalls = [i for i, t in main.calls(r'ops::Fn::call$') if t['f'].get('res') == meta]
+    ok, wit = must_pass(main, sk, mcalls) if sk else (False, None)
+    v6 = all(any(adt == 'KeyVersion' and vs == ['V6'] for adt, vs in arm_context(main, i, dom)) or
+             any(has_origin(main.switch_origins(g), r'agg:.*KeyVersion::V6$') for g, _ in guard_switches(main, [i], [r'call:.*KeyDetails::version$'])) for i in sk)
+    ctx.check(P + ':cert:v6-direct-key-signature-carries-metadata', 'R-dom',
+              'a direct-key self-signature is made under a key-version == V6 branch and its hashed area comes from the metadata closure', ok and bool(sk) and v6, function=KSIGN,
+              site=site(main, sk[0]) if sk else None)
+    # every user-id self-certification takes its hashed area from the metadata closure except under the V6 arm
+    n = 0
+    for b in [main] + [c for cp, c in sorted(clos.items())]:
+        sc = call_blocks(b, r'SignatureConfig::sign_certification$')
+        if not sc:
+            continue
+        n += 1
+        d2 = b.dominators()
+        # the helper calls that sit in an arm of `match key.version()` (the v6 direct-key signature calls the metadata helper outside any such arm)
+        in_arm = lambda i: any(adt == 'KeyVersion' for adt, vs in arm_context(b, i, d2))
+        m2 = [i for i, t in b.calls(r'ops::Fn::call$') if t['f'].get('res') == meta and in_arm(i)]
+        b2 = [i for i, t in b.calls(r'ops::Fn::call$') if t['f'].get('res') in basic and in_arm(i)]
+        ok1, _ = must_pass(b, sc, m2 + b2)
+        only_v6 = all(any(adt == 'KeyVersion' and vs == ['V6'] for adt, vs in arm_context(b, i, d2)) for i in b2)
+        non_v6 = all(any(adt == 'KeyVersion' and 'V4' in vs and 'V6' not in vs for adt, vs in arm_context(b, i, d2)) for i in m2) and bool(m2)
+        ctx.check('%s:cert:userid-selfsig-subpackets:%s' % (P, b.path.split('::')[-1]), 'R-dom',
+                  'user-id self-certification in %s: the hashed area is the metadata set for every key version except V6 (where the direct-key signature carries it)' % b.path.split('::')[-1],
+                  ok1 and only_v6 and non_v6, function=b.path, site=site(b, sc[0]))
+    ctx.floor(P + ':cert:userid-selfsig:floor', 'bodies making user-id self-certifications in KeyDetails::sign', n, 2)
+    # primary user id is marked primary on every path
+    sc = call_blocks(main, r'SignatureConfig::sign_certification$')
+    ip = []
+    for i, k, st in main.constructs(r'SubpacketData$', 'IsPrimary'):
+        o = st['r']['o'][0]
+        if 'k' in o and o['k'].get('v') in (1, True):
+            ip.append(i)
+    pushes = [i for i, t in main.calls(r'Vec::<.*>::push$') if has_origin(main.operand_origins(t['args'][1]), r'agg:.*SubpacketData::IsPrimary$')
+              and (any(e.endswith('SignatureConfig.hashed_subpackets') for e in (t['args'][0].get('pr') or [])) or has_origin(main.operand_origins(t['args'][0]), r'field:SignatureConfig\.hashed_subpackets$'))]
+    ok, wit = must_pass(main, sc, pushes) if sc and pushes else (False, None)
+    ctx.check(P + ':cert:primary-userid-marked', 'R-dom', 'the self-certification of the primary user id carries IsPrimary(true) in its hashed area on every path (all key versions)',
+              ok and bool(ip), function=KSIGN, witness=fmt_path(main, wit) if wit else None)
+
+
+def lock_after_backsig(ctx, P, sub):
+    """The embedded back-signature is made by the subkey itself: if the subkey is locked before that call, the password handed to
+    sign_primary_key_binding must be the subkey's own passphrase; otherwise the call must precede locking."""
+    if sub is None:
+        return
+    b = sub
+    locks = call_blocks(b, r'SecretSubkey::set_password(_with_s2k)?$')
+    signs = b.calls(r'SecretSubkey::sign_primary_key_binding$')
+    ctx.check(P + ':backsig:lock-site', 'R-seq', 'the per-subkey closure locks the subkey when a passphrase was requested', bool(locks), function=b.path)
+    for i, t in signs:
+        after_lock = any(b.find_path(b.blocks[l]['t']['t'], {i}) is not None for l in locks)
+        pw = b.operand_origins(t['args'][-1])
+        own = has_origin(pw, r'field:SubkeyParams\.passphrase$')
+        ctx.check(P + ':backsig:signed-while-unlockable', 'R-seq',
+                  'sign_primary_key_binding runs before the subkey is locked, or is given the subkey\'s own passphrase',
+                  (not after_lock) or own, function=b.path, site=site(b, i),
+                  missing=None if ((not after_lock) or own) else 'the subkey is locked first and the back-signature is requested with a password that does not derive from SubkeyParams.passphrase')
